@@ -132,3 +132,79 @@ Proof.
   eexists. eexists. split; [vm_compute; reflexivity|]. split; [vm_compute; reflexivity|].
   eapply C12_groupby; [auto with arith|vm_compute; reflexivity].
 Qed.
+
+(* ---- aggregation bridges (harness/mkprops_aggs.py): begin ---- *)
+(* The aggregation classes are the ones regenerated from the source under test on this run: Gen/KA_<class>.v is written by
+   harness/gen_aggs.py from the python AST of streamz/dataframe/aggregations.py (symbolic execution over an abstract pandas
+   interface, Base/AggPrims.v; the mapping of the pandas primitives is printed into every generated file).
+   Base/BridgeAggs.v (streaming Series: statistics are numbers) and Base/BridgeAggsVec.v (streaming DataFrame: one
+   statistic per column) prove that, with the interface instantiated by DF/Frames.v, they are the fields of the
+   aggregation records of DF/Agg.v, repaired variant.  f2o: a float result as option Qc (NaN and the infinities are None);
+   var_py: the model's extra state component "still the python ints of `initial`". *)
+From SZ Require Import Base.AggPrims Base.BridgeAggs Base.BridgeAggsVec.
+From SZ Require Gen.KA_Sum Gen.KA_Count Gen.KA_Size Gen.KA_Mean Gen.KA_Var Gen.KA_Accumulator.
+Theorem C12_bridge_Sum :
+  (* sum_on_new *)
+  (forall c acc new, Some (Gen.KA_Sum.gen_sum_on_new (frames_ops c) acc new) = Agg.on_new (sum_s c) acc new) /\
+  (* sum_initial *)
+  (forall c new, Gen.KA_Sum.gen_sum_initial (frames_ops c) new = Agg.initial (sum_s c) new) /\
+  (* sum_on_new_v *)
+  (forall cs acc new, Some (Gen.KA_Sum.gen_sum_on_new_v (frames_vops cs) acc new) = Agg.on_new (sum_v cs) acc new) /\
+  (* sum_initial_v *)
+  (forall cs new, Gen.KA_Sum.gen_sum_initial_v (frames_vops cs) new = Agg.initial (sum_v cs) new).
+Proof. exact (conj bridge_sum_on_new (conj bridge_sum_initial (conj bridge_sum_on_new_v bridge_sum_initial_v))). Qed.
+Print Assumptions C12_bridge_Sum.
+Theorem C12_bridge_Count :
+  (* count_on_new *)
+  (forall c acc new, Some (Gen.KA_Count.gen_count_on_new (frames_ops c) acc new) = Agg.on_new (count_s c) acc new) /\
+  (* count_initial *)
+  (forall c new, Gen.KA_Count.gen_count_initial (frames_ops c) new = Agg.initial (count_s c) new) /\
+  (* count_on_new_v *)
+  (forall cs acc new, Some (Gen.KA_Count.gen_count_on_new_v (frames_vops cs) acc new) = Agg.on_new (count_v cs) acc new) /\
+  (* count_initial_v *)
+  (forall cs new, Gen.KA_Count.gen_count_initial_v (frames_vops cs) new = Agg.initial (count_v cs) new).
+Proof. exact (conj bridge_count_on_new (conj bridge_count_initial (conj bridge_count_on_new_v bridge_count_initial_v))). Qed.
+Print Assumptions C12_bridge_Count.
+Theorem C12_bridge_Size :
+  (* size_on_new *)
+  (forall c acc new, Some (Gen.KA_Size.gen_size_on_new (frames_ops c) acc new) = Agg.on_new (size_s c) acc new) /\
+  (* size_initial *)
+  (forall c new, Gen.KA_Size.gen_size_initial (frames_ops c) new = Agg.initial (size_s c) new) /\
+  (* size_on_new_v *)
+  (forall cs acc new, Some (Gen.KA_Size.gen_size_on_new_v (frames_vops cs) acc new) = Agg.on_new (size_v cs) acc new) /\
+  (* size_initial_v *)
+  (forall cs new, Gen.KA_Size.gen_size_initial_v (frames_vops cs) new = Agg.initial (size_v cs) new).
+Proof. exact (conj bridge_size_on_new (conj bridge_size_initial (conj bridge_size_on_new_v bridge_size_initial_v))). Qed.
+Print Assumptions C12_bridge_Size.
+Theorem C12_bridge_Mean :
+  (* mean_on_new *)
+  (forall c acc new, Some (res_o (Gen.KA_Mean.gen_mean_on_new (frames_ops c) acc new)) = Agg.on_new (mean_s c repaired) acc new) /\
+  (* mean_initial *)
+  (forall c new, Gen.KA_Mean.gen_mean_initial (frames_ops c) new = Agg.initial (mean_s c repaired) new) /\
+  (* mean_on_new_v *)
+  (forall cs acc new, Some (res_vo (Gen.KA_Mean.gen_mean_on_new_v (frames_vops cs) acc new)) = Agg.on_new (mean_v cs) acc new) /\
+  (* mean_initial_v *)
+  (forall cs new, Gen.KA_Mean.gen_mean_initial_v (frames_vops cs) new = Agg.initial (mean_v cs) new).
+Proof. exact (conj bridge_mean_on_new (conj bridge_mean_initial (conj bridge_mean_on_new_v bridge_mean_initial_v))). Qed.
+Print Assumptions C12_bridge_Mean.
+Theorem C12_bridge_Var :
+  (* var_on_new *)
+  (forall c ddof x x2 n py new,
+   Some (let p := Gen.KA_Var.gen_var_on_new (frames_ops c) ddof (x, x2, n) new in ((fst p, var_py py new), f2o (snd p)))
+   = Agg.on_new (var_s c repaired ddof) (x, x2, n, py) new) /\
+  (* var_initial *)
+  (forall c ddof new, (Gen.KA_Var.gen_var_initial (frames_ops c) new, true) = Agg.initial (var_s c repaired ddof) new) /\
+  (* var_on_new_v *)
+  (forall cs ddof acc new, Some (res_vo (Gen.KA_Var.gen_var_on_new_v (frames_vops cs) ddof acc new)) = Agg.on_new (var_v cs ddof) acc new) /\
+  (* var_initial_v *)
+  (forall cs ddof new, Gen.KA_Var.gen_var_initial_v (frames_vops cs) new = Agg.initial (var_v cs ddof) new).
+Proof. exact (conj bridge_var_on_new (conj bridge_var_initial (conj bridge_var_on_new_v bridge_var_initial_v))). Qed.
+Print Assumptions C12_bridge_Var.
+Theorem C12_bridge_accumulator :
+  (* accumulator *)
+  (forall (S R : Type) (agg : aggregation S R) (f : S -> frame -> S * R),
+   (forall s b, Agg.on_new agg s b = Some (f s b)) ->
+   forall acc new, Some (Gen.KA_Accumulator.gen_accumulator (Agg.initial agg) f acc new) = accumulator agg acc new).
+Proof. exact (@bridge_accumulator). Qed.
+Print Assumptions C12_bridge_accumulator.
+(* ---- aggregation bridges (harness/mkprops_aggs.py): end ---- *)
